@@ -401,6 +401,10 @@ func (x *g) addHook(typeName, goType string, repeated, withSuffix, named bool) {
 	suffix := strings.ReplaceAll(strings.ReplaceAll(typeName, "/", ""), ".", "")
 	if withSuffix {
 		suffix = "Sfx" + typeName
+		if strings.ContainsAny(typeName, "[]*") {
+			// a custom type given as a type expression ([]T, *T, map[string]T): the whole expression is the suffixes key
+			suffix = "Sfx" + strings.NewReplacer("[", "", "]", "", "*", "").Replace(typeName) + "Expr"
+		}
 		x.cfg.Suffixes = append(x.cfg.Suffixes, desc.KV{K: typeName, V: suffix})
 	}
 	x.meta.Hooks = append(x.meta.Hooks, Hook{Suffix: suffix, GoType: goType, Repeated: repeated})
@@ -512,6 +516,11 @@ func GenCase(r *driver.Rng, opt Options) (*desc.Case, *Meta) {
 		pkg = "tpkg"
 	}
 	file := desc.File{Name: "x.proto", Package: pkg}
+	// the proto file may live in a sub-directory or carry a version in its base name: its Go import path is then not "."
+	// (api/v1/x.proto -> api/v1/x_terraform.go); root messages are still selected by their bare names
+	if r.P(35) {
+		file.Name = []string{"api/v1/x.proto", "sub/x.proto", "x.v1.proto", "api/x_y.proto"}[r.Intn(4)]
+	}
 	if r.P(40) {
 		pc := []string{" This package holds the messages of the service\n", " Messages.\n second line of the package comment\n", " types\n"}[r.Intn(3)]
 		file.PackageComment = &pc
@@ -872,6 +881,25 @@ func (x *g) fieldOptions(c *desc.Case, cfg *desc.Config) {
 			n++
 		}
 	}
+	// directed: the children of an embedded message take options keyed by the path through the embedding message
+	// (the embedded field itself adds no path segment, whatever its proto name looks like)
+	{
+		n := 0
+		for _, o := range occ {
+			if !o.underEmbed || n >= 3 || excl[o.typeName] || !x.r.P(50) {
+				continue
+			}
+			switch n % 3 {
+			case 0:
+				cfg.NameOverrides = append(cfg.NameOverrides, desc.KV{K: o.path, V: x.attrName("_e")})
+			case 1:
+				cfg.ComputedFields = append(cfg.ComputedFields, o.path)
+			default:
+				cfg.SensitiveFields = append(cfg.SensitiveFields, o.path)
+			}
+			n++
+		}
+	}
 	// custom_types entries for plain string fields drawn by customField (no gogo option): by full path
 	var exclPaths []string
 	for _, o := range occ {
@@ -900,9 +928,16 @@ func (x *g) fieldOptions(c *desc.Case, cfg *desc.Config) {
 		}
 		n := x.r.Intn(3) // 0, 1 or 2 configuration-made custom types per case
 		withSuffix := x.r.P(80)
+		ctName := "CfgCustomC"
+		if x.r.P(35) {
+			// the name of a configuration-made custom type is free text: a type expression is a name like any other and is
+			// looked up in suffixes as it is written (its default suffix would not be an identifier, so it always has an entry)
+			ctName = []string{"[]CfgCustomC", "*CfgCustomC", "map[string]CfgCustomC"}[x.r.Intn(3)]
+			withSuffix = true
+		}
 		for i := 0; i < n && i < len(cands); i++ {
-			cfg.CustomTypes = append(cfg.CustomTypes, desc.KV{K: cands[i].path, V: "CfgCustomC"})
-			x.addHook("CfgCustomC", "string", false, withSuffix, false)
+			cfg.CustomTypes = append(cfg.CustomTypes, desc.KV{K: cands[i].path, V: ctName})
+			x.addHook(ctName, "string", false, withSuffix, false)
 		}
 		cfg.CustomTypes = dedupKV(cfg.CustomTypes)
 	}
